@@ -325,7 +325,7 @@ Proof.
   intros Hw Hin Hd Hm H. destruct (machine_bundle_sound _ _ _ Hw H) as [_ Hs].
   unfold spec_matches in Hs. change (str_eqb s_default s_default) with true in Hs. cbn iota in Hs.
   assert (Hk : In k (documented_keys op)) by (apply in_map_iff; exists (k, n); split; [reflexivity|exact Hin]).
-  pose proof (proj1 (forallb_forall _ _) Hs k Hk) as Hf. rewrite Hd, Hm in Hf. discriminate.
+  pose proof (proj1 (forallb_forall _ _) Hs k Hk) as Hf. cbn beta in Hf. rewrite Hd, Hm in Hf. discriminate.
 Qed.
 
 Example machine_bundle_nonvacuous :
